@@ -1,7 +1,8 @@
 (* C02 - every consumer starts decodable: headers, then a key frame, bounded
    GOP replay.  Statements only (labels as in C01). *)
 From Lal Require Import Common.LBytes Group.GroupMsg Group.GroupGopCache Group.GroupFanout
-  Group.GroupGopCacheProofs Group.GroupFanoutProofs Group.GroupFanoutCacheProofs Group.GroupFanoutAdmitProofs.
+  Group.GroupGopCacheProofs Group.GroupFanoutProofs Group.GroupFanoutCacheProofs Group.GroupFanoutAdmitProofs
+  Group.GroupFanoutRtspProofs.
 Open Scope N_scope.
 
 (* After ANY history the RTMP and HTTP-FLV caches hold exactly what the
@@ -93,7 +94,7 @@ Print Assumptions c02_waiting_rtmp.
 (* a joiner waits for a key frame only when the current input has announced video;
    the end of an input forgets that (fix F-07), together with every cached header and GOP *)
 Theorem c02_no_video_no_wait : forall cf s k id,
-  (c_wait (new_consumer s k id) = match k with KRtmp | KFlv => g_video_known s | KPush => false | KTs => true end) /\
+  (c_wait (new_consumer s k id) = match k with KRtmp | KFlv => g_video_known s | KPush => false | KTs | KRtsp => true end) /\
   (g_in s = true -> g_video_known (step cf s EvInStop) = false /\ g_patpmt (step cf s EvInStop) = None /\
      prologue (g_rtmp_cache (step cf s EvInStop)) false = [] /\ prologue (g_flv_cache (step cf s EvInStop)) false = [] /\
      gc_all (g_ts_cache (step cf s EvInStop)) = []).
@@ -109,7 +110,8 @@ Print Assumptions c02_no_video_no_wait.
    the listed known findings of C02. *)
 Definition cfg0 (gop : nat) : cfg :=
   {| cf_rtmp_enable := true; cf_rtmp_gop := gop; cf_rtmp_max := 0; cf_flv_enable := true; cf_flv_gop := gop; cf_flv_max := 0;
-     cf_ts_gop := gop; cf_ts_max := 0; cf_merge := 0; cf_record_flv := false; cf_chunk := 4096; cf_ext_at_limit := false |}.
+     cf_ts_gop := gop; cf_ts_max := 0; cf_merge := 0; cf_record_flv := false; cf_chunk := 4096; cf_ext_at_limit := false;
+     cf_rtsp_wait := true; cf_hook := true; cf_record_ts := true |}.
 Definition vmsg (b0 b1 tail : N) : rmsg := {| rm_type := 9; rm_ts := 0; rm_payload := [b0; b1; 0; 0; 0; tail] |}.
 Definition amsg (b0 b1 tail : N) : rmsg := {| rm_type := 8; rm_ts := 0; rm_payload := [b0; b1; 0; 0; 0; tail] |}.
 Definition out_of (cf : cfg) (h : list ev) (id : N) : option (list label) :=
@@ -168,3 +170,111 @@ Example c02_nonvacuous :
   sp_gops (ss_flv (srun (cfg0 3) h)) = [[LT 1; LT 2]; [LT 3]] /\
   prologue (g_flv_cache (run (cfg0 3) h)) false = [LT 0; LT 1; LT 2; LT 3].
 Proof. vm_compute. split; reflexivity. Qed.
+
+(* ---------------------------------------------------------------------- *)
+(* RTSP subscribers.  EvJoin KRtsp = DESCRIBE (HandleNewRtspSubSessionDescribe),
+   EvPlay = SETUP + PLAY (HandleNewRtspSubSessionPlay), EvRtp raw = OnRtpPacket
+   of the packet rtprtcp.ParseRtpPacket makes of raw; LSdp k = the DESCRIBE
+   response carrying the k-th SDP, LRtp j = the j-th packet (interleaved). *)
+
+(* The SDP comes first.  A DESCRIBE is answered with the SDP in force - with
+   nothing when there is none, in particular after the input ended; a session
+   left waiting gets the next SDP that is announced; and over ALL histories,
+   whatever an RTSP session ever received is one SDP followed by RTP packets only. *)
+Theorem c02_rtsp_sdp_first : forall cf : cfg,
+  (forall s id, c_out (new_consumer s KRtsp id) = opt_list (g_sdp s) /\ c_fresh (new_consumer s KRtsp id) = true) /\
+  (forall s id, g_in s = true -> c_out (new_consumer (step cf s EvInStop) KRtsp id) = []) /\
+  (forall l c, c_kind c = KRtsp -> c_fresh c = true -> c_out c = [] -> c_out (sdp_step l c) = [l]) /\
+  (forall h c, In c (all_consumers (run cf h)) -> c_kind c = KRtsp ->
+     c_out c = [] \/ exists k rest, c_out c = LSdp k :: rest /\ Forall is_rtp rest).
+Proof.
+  intro cf. split; [intros; split; reflexivity|]. split.
+  - intros s id Hin. destruct (in_stop_clears cf s Hin) as (_ & _ & _ & _ & _ & _ & _ & H). unfold new_consumer. cbn [c_out]. now rewrite H.
+  - split; [|apply rtsp_sdp_first].
+    intros l c Hk Hf Ho. unfold sdp_step, no_sdp_yet. rewrite Hk, Hf, Ho. cbn. now rewrite Ho.
+Qed.
+Print Assumptions c02_rtsp_sdp_first.
+
+(* PLAY admits the session; it waits for a GOP start exactly when the group knows a
+   video codec.  Until PLAY no packet touches the session - in particular it cannot
+   lose its wait to a key frame it never receives (fix F-32). *)
+Theorem c02_fresh_rtsp : forall vk id c,
+  c_kind c = KRtsp -> c_id c = id -> c_fresh c = true -> c_out c <> [] ->
+  (let c' := play_step vk id c in c_fresh c' = false /\ c_wait c' = (vk && c_wait c) /\ c_out c' = c_out c) /\
+  (forall waitcfg boundary written l, rtsp_step waitcfg boundary written l c = c).
+Proof.
+  intros vk id c Hk Hid Hf Ho. split; [now apply rtsp_play_visit|].
+  intros. now apply rtsp_not_playing_visit.
+Qed.
+Print Assumptions c02_fresh_rtsp.
+
+(* a playing session that waits receives nothing from a packet that is no GOP
+   start, and exactly that packet from one that is (when its payload type is one
+   the SDP announces); without OutWaitKeyFrameFlag, or once admitted, every packet *)
+Theorem c02_waiting_rtsp : forall boundary written l c,
+  c_kind c = KRtsp -> c_fresh c = false -> c_wait c = true ->
+  let c' := rtsp_step true boundary written l c in
+  c_kind c' = KRtsp /\ c_fresh c' = false /\ c_wait c' = negb boundary /\
+  c_out c' = c_out c ++ (if boundary && written then [l] else []).
+Proof. exact rtsp_waiting_visit. Qed.
+Print Assumptions c02_waiting_rtsp.
+
+Theorem c02_open_rtsp : forall waitcfg boundary written l c,
+  c_kind c = KRtsp -> c_fresh c = false -> negb waitcfg || negb (c_wait c) = true ->
+  let c' := rtsp_step waitcfg boundary written l c in
+  c_kind c' = KRtsp /\ c_fresh c' = false /\ c_wait c' = c_wait c /\
+  c_out c' = c_out c ++ (if written then [l] else []).
+Proof. exact rtsp_open_visit. Qed.
+Print Assumptions c02_open_rtsp.
+
+(* Lifted to histories (as c01_contiguous): after ANY history h0 in which the
+   session plays and waits, nothing during any h1 without a GOP start ([quiet]:
+   every packet of h1 fails the boundary test of the SDP in force when it
+   arrives - joins, leaves of others, publishes, new inputs allowed), then the
+   first GOP-start packet itself, then one unit per forwarded packet of any h2:
+   one contiguous run that ends only when the session leaves. *)
+Theorem c02_rtsp_gate_run : forall cf h0 h1 raw pt h2 id c,
+  cf_rtsp_wait cf = true ->
+  find_sub (run cf h0) id = Some c -> c_kind c = KRtsp -> c_fresh c = false -> c_wait c = true ->
+  attached id KRtsp (h1 ++ EvRtp raw :: h2) ->
+  quiet cf (run cf h0) h1 ->
+  rtp_pt raw = Some pt -> rtp_boundary_at (run cf (h0 ++ h1)) raw = true ->
+  exists c', find_sub (run cf (h0 ++ h1 ++ EvRtp raw :: h2)) id = Some c' /\ rtsp_admitted cf c' = true /\
+             c_out c' = c_out c ++ rtp_units (g_next_rtp (run cf (h0 ++ h1))) (EvRtp raw :: h2).
+Proof. exact rtsp_gate_run. Qed.
+Print Assumptions c02_rtsp_gate_run.
+
+Theorem c02_rtsp_contiguous : forall cf h0 h id c,
+  find_sub (run cf h0) id = Some c -> c_kind c = KRtsp -> rtsp_admitted cf c = true -> attached id KRtsp h ->
+  exists c', find_sub (run cf (h0 ++ h)) id = Some c' /\ c_kind c' = KRtsp /\ rtsp_admitted cf c' = true /\
+             c_out c' = c_out c ++ rtp_units (g_next_rtp (run cf h0)) h.
+Proof. exact rtsp_contiguous_run. Qed.
+Print Assumptions c02_rtsp_contiguous.
+
+(* concrete packets: 12-byte RTP header (PT 96) + an IDR slice / a non-IDR slice / PT 97 *)
+Definition rtp_idr (seq : N) : bytes := [128; 96; 0; seq; 0; 0; 35; 40; 17; 34; 51; 68; 101; 136; 132; 0].
+Definition rtp_non (seq : N) : bytes := [128; 96; 0; seq; 0; 0; 46; 224; 17; 34; 51; 68; 65; 154; 2; 5].
+Definition rtp_aud (seq : N) : bytes := [128; 97; 0; seq; 0; 0; 46; 224; 17; 34; 51; 68; 0; 16; 10; 64].
+
+(* F-32, FIXED (lal e05e681): a key frame that passes between DESCRIBE and PLAY leaves the wait in place;
+   F-33, FIXED (lal 6e14665): a packet that arrives after the input ended reaches no waiting session (and panics nothing) *)
+Lemma c02_rtsp_wait_kept_before_play :
+  let h := [EvInStart; EvPublish (vmsg 23 0 1); EvSdp VAvc; EvJoin KRtsp 1; EvRtp (rtp_idr 1); EvPlay 1;
+            EvRtp (rtp_non 2); EvRtp (rtp_aud 3); EvRtp (rtp_idr 4); EvRtp (rtp_non 5)] in
+  out_of (cfg0 0) h 1 = Some [LSdp 0; LRtp 3; LRtp 4] /\
+  let h' := [EvInStart; EvPublish (vmsg 23 0 1); EvSdp VAvc; EvJoin KRtsp 1; EvPlay 1; EvInStop; EvRtp (rtp_idr 1); EvRtp (rtp_non 2)] in
+  out_of (cfg0 0) h' 1 = Some [LSdp 0].
+Proof. vm_compute. split; reflexivity. Qed.
+
+(* non-vacuity of the RTSP theorems: a session that plays and waits, a quiet stretch, a GOP start *)
+Example c02_rtsp_nonvacuous :
+  let h0 := [EvJoin KRtsp 1; EvInStart; EvPublish (vmsg 23 0 1); EvSdp VAvc; EvPlay 1] in
+  let h1 := [EvRtp (rtp_non 1); EvJoin KFlv 2; EvRtp (rtp_aud 2)] in
+  (exists c, find_sub (run (cfg0 0) h0) 1 = Some c /\ c_kind c = KRtsp /\ c_fresh c = false /\ c_wait c = true /\ c_out c = [LSdp 0]) /\
+  quiet (cfg0 0) (run (cfg0 0) h0) h1 /\ rtp_pt (rtp_idr 3) = Some 96 /\
+  rtp_boundary_at (run (cfg0 0) (h0 ++ h1)) (rtp_idr 3) = true /\
+  out_of (cfg0 0) (h0 ++ h1 ++ [EvRtp (rtp_idr 3); EvRtp (rtp_non 4)]) 1 = Some [LSdp 0; LRtp 2; LRtp 3].
+Proof.
+  split; [eexists; vm_compute; repeat split; reflexivity|].
+  vm_compute. repeat split; reflexivity.
+Qed.
